@@ -93,6 +93,19 @@ def fault_specs(ctx):
                 sp = dict(sf)
                 sp["inject"] = {"at": at, "ops": vloop.FAULTS[f]}
                 inj.append((sp, {"client": s["client"], "cb": s["cb"], "fault": f, "at": at}))
+    # other kinds of callbacks: objects with an async __call__, lambdas returning the coroutine (both valid
+    # Callable[..., Awaitable]), and a status callback that itself sends when told DISCONNECTED
+    for c in clients:
+        for kind in ("obj", "lambda", "sends"):
+            s0 = vloop.spec(c, cb="ret", rcb="ret", tail=vloop.RECOVERY_TAIL)
+            s0["cbkind"] = kind
+            o0 = next((o for s_, o in zip(base, bobs) if s_["client"] == c and s_["cb"] == "ret"), {})
+            npos = min(o0.get("npos") or 0, MAX_POS)
+            for f in ("eof", "writeerr", "reset"):
+                for at in range(2, max(2, npos - 2), 5 if not thorough else 2):
+                    sp = dict(s0)
+                    sp["inject"] = {"at": at, "ops": vloop.FAULTS[f]}
+                    inj.append((sp, {"client": c, "cb": "ret/" + kind, "fault": f, "at": at, "oracle_only": kind == "sends"}))
     for i, (sp, _) in enumerate(inj):        # which exception class the failing attempts raise: rotates with run and seed
         sp["exc_rot"] = ctx.seed + i
     iobs = vloop.run_batch([dict(sp) for sp, _ in inj], _repo(), wall=6, procs=3)
@@ -202,13 +215,15 @@ def correspond(ctx):
     failing_cases = [dict(_short(specs[idx[i]], meta[idx[i]]), why="trace rejected by lts_accepts") for i in r["failing"]]
     bad_runs = 0
     for i, o in enumerate(obs):
+        if meta[i].get("oracle_only") and not o.get("spin") and not o.get("crash"):
+            continue        # sessions outside the LTS (a callback that sends): judged by the property text only (search)
         if o.get("labels") is None:
             bad_runs += 1
             why = ("no progress: the client span without yielding (watchdog)" if o.get("spin") else
                    "crash: " + str(o.get("crash")) if o.get("crash") else "unlabelled block: " + str(o.get("unlabelled")))
             failing_cases.append(dict(_short(specs[i], meta[i]), why=why))
     r["failing"] = list(r["failing"]) + [-1] * bad_runs
-    r["n"] = len(obs)
+    r["n"] = sum(1 for m in meta if not m.get("oracle_only"))
     nontrivial = [tuple(l[0] for l in o["labels"]) for o in obs if o.get("labels") and
                   any(("RxRaise" in l[0]) or ("SFault" in l[0]) or ("AImplFail" in l[0]) for l in o["labels"])]
     by_client, by_fault = {}, {}
@@ -249,6 +264,10 @@ def judge(o, spec):
         return {"key": "harness:crash", "what": f"{c}: run crashed: {o['crash']}"}
     st = [s[1] for s in o["status"]]
     status = [(s[0], s[1]) for s in o["status"]]
+    if o.get("callback_send_stuck") is not None:
+        return {"key": "recover:send-from-status-callback-stuck",
+                "what": f"{c}: the status callback, told DISCONNECTED, called send(); that send() had not returned 20 s later "
+                        f"(t={o['callback_send_stuck']:.2f}); status {st}, final state {o['state']}, attempts {o['attempts']}"}
     if any(a == b for a, b in zip(st, st[1:])):
         return {"key": "status:repeated", "what": f"{c}: status callback got the same state twice in a row: {st}"}
     # heartbeat: one beat per 0.1 virtual seconds
